@@ -123,7 +123,7 @@ func VerifC18Document() {
 	// with the short name of a message of this package
 	leafName := "Leaf"
 	if nameSymbolic {
-		leafName = verif.StringIn("leaf.name", 5, "A-Za-z")
+		leafName = verif.StringIn("leaf.name", verif.L(5), "A-Za-z")
 		verif.Assume(verif.Matches(leafName, `[A-Z][a-z]*`))
 	}
 	leaf := c18Msg(leafName, "other.v1."+leafName)
